@@ -284,18 +284,17 @@ def rule_realign(ctx, P, rb, rc):
         else:
             rc.fail(inst, func=f.name, sig=f'{role}: copies {ln} into alloc({alloc})', loc=M.loc,
                     msg=f'copy length {ln} and allocation alloc_fragment_buffer({alloc}) do not describe the same fragment (alloc + 80 must equal the copy length)')
-    # allocator alignment constant and header size
-    g = P.fn('get_aligned_buffer16')
-    pm = [i for i in g.insts() if i.op == 'call' and i.callee == '@posix_memalign']
-    if pm and pm[0].ops[1] == '16':
-        rb.ok('get_aligned_buffer16: posix_memalign(., 16, .)', func=g.name, loc=pm[0].loc)
-    else:
-        rb.fail('allocator alignment', func=g.name, sig='allocator alignment ' + (pm[0].ops[1] if pm else 'none'), loc=g.mod.src, msg='fragment buffers are not allocated 16-byte aligned')
-    a = P.fn('alloc_fragment_buffer')
-    if any(i.op == 'call' and i.callee == '@get_aligned_buffer16' for i in a.insts()):
-        rb.ok('alloc_fragment_buffer uses the aligned allocator', func=a.name, loc=a.mod.src)
-    else:
-        rb.fail('alloc_fragment_buffer allocator', func=a.name, sig='not the aligned allocator', loc=a.mod.src, msg='fragment buffers do not come from get_aligned_buffer16')
+    # allocator alignment and header size: judged by what the allocation does (posix_memalign with alignment 16, directly or
+    # through a wrapper), not by the name of the wrapper
+    from . import shared as _sh
+    for an in ('get_aligned_buffer16', 'alloc_fragment_buffer'):
+        g = P.fn(an)
+        az = _sh.aligned_zero_alloc(P, g)
+        if az is not None and az['alignment'] is not None and az['alignment'] % 16 == 0:
+            rb.ok(f'{an}: posix_memalign(., {az["alignment"]}, .) ({az["how"]})', func=g.name, loc=az['site'].loc)
+        else:
+            rb.fail(f'{an} alignment', func=g.name, sig='allocator alignment ' + (str(az['alignment']) if az else 'none'), loc=g.mod.src,
+                    msg='fragment buffers are not allocated 16-byte aligned' if an == 'get_aligned_buffer16' else 'fragment buffers do not come from get_aligned_buffer16')
     res = witness.run_witness(ctx.root, ['erasurecode.h'], [('header_multiple_of_16', 'sizeof(fragment_header_t) % 16 == 0')])
     if res['header_multiple_of_16']:
         rb.ok('sizeof(fragment_header_t) % 16 == 0 (payload keeps the buffer alignment)', func='fragment_header_t')
@@ -372,6 +371,9 @@ def run(ctx):
             if not isnull:
                 continue
             failed = any(any(a.startswith(x + '(') for x in ALLOCS) and ((pr == 'eq' and b == 'null') or (pr in ('ne', 'sgt', 'slt') and b == '0')) for pr, a, b in T)
+            # posix_memalign hands its result out through its first argument: NULL there is the allocator's own answer
+            outs = {re.match(r'@posix_memalign\(([^,]+),', a).group(1) for pr, a, b in T if a.startswith('@posix_memalign(')}
+            failed = failed or any(pr == 'eq' and b == 'null' and a.startswith('*') and a[1:] in outs for pr, a, b in T)
             negative = any(a == 'arg0' and ((pr == 'slt' and b == '0') or (pr == 'sle' and b == '-1')) for pr, a, b in T)
             if not failed and not negative:
                 bad = T
